@@ -132,6 +132,12 @@ func run() {
 				if fd.Name.Name == "Run" {
 					runDecl = fd
 				}
+				if fd.Name.Name == "warnf" {
+					// the primitive is modelled as one warning event and nothing else: its body must be exactly the log call
+					if fd.Body == nil || len(fd.Body.List) != 1 || stmtShape(t.fset, fd.Body.List[0]) != `expr (call log Printf (+ "Z80 warn: " msg args` {
+						panic(refusal("warnf is not a plain log.Printf any more"))
+					}
+				}
 				continue
 			}
 			fi := &funcInfo{goName: fd.Name.Name, decl: fd, file: fn, calls: map[string]bool{}, writes: map[string]bool{}, lensPar: map[string]bool{}}
